@@ -2,6 +2,7 @@
 from __future__ import annotations
 
 from kfv.core import Ctx
+from kfv.rules import c19 as C19
 from kfv.rules import role_rules as RO
 from kfv.rules import tensor_rules as TR
 from kfv.rules import coh_rules as C
@@ -32,3 +33,4 @@ def run(ctx: Ctx) -> None:
     ctx.do(C.rule_ts_fut)
     ctx.do(TR.rule_alias_input)
     ctx.do(RO.rule_roles)
+    ctx.do(C19.rule_scheduler)
